@@ -5,6 +5,7 @@ package main
 import (
 	"errors"
 	"net"
+	"os"
 	"sync"
 	"syscall"
 	"time"
@@ -58,8 +59,17 @@ type faultServer struct {
 	got   []int
 }
 
+// faultIP is a loopback address no other live driver process uses (derived from the pid): a port that
+// a "refusing" fault server has just released may be handed by the kernel to the fault server of a
+// concurrently running shard; on a shared address the code under test would then reach THAT listener
+// (seen once in ~7 runs as a send that "succeeded" where the script refuses).
+func faultIP() net.IP {
+	pid := os.Getpid()
+	return net.IPv4(127, byte(200+(pid/254/256)%50), byte((pid/254)%256), byte(1+pid%254))
+}
+
 func newFaultServer() *faultServer {
-	ln, err := net.ListenTCP("tcp", &net.TCPAddr{IP: net.IPv4(127, 0, 0, 1), Port: 0})
+	ln, err := net.ListenTCP("tcp", &net.TCPAddr{IP: faultIP(), Port: 0})
 	if err != nil {
 		panic(err)
 	}
@@ -69,7 +79,7 @@ func newFaultServer() *faultServer {
 func (fs *faultServer) setOpen(open bool) {
 	if open && fs.ln == nil {
 		for i := 0; i < 100; i++ {
-			ln, err := net.ListenTCP("tcp", &net.TCPAddr{IP: net.IPv4(127, 0, 0, 1), Port: fs.port})
+			ln, err := net.ListenTCP("tcp", &net.TCPAddr{IP: faultIP(), Port: fs.port})
 			if err == nil {
 				fs.ln = ln
 				return
@@ -188,7 +198,7 @@ func init() {
 				fo.primary = &TCPClientTransport{addr: "cached-primary", reconnectable: false, conn: pri, expire: time.Now().Unix() + 3600}
 			}
 			if secPresent {
-				tc, _ := NewTCPClientTransport("127.0.0.1", fs.port, "127.0.0.1", established)
+				tc, _ := NewTCPClientTransport(faultIP().String(), fs.port, "127.0.0.1", established)
 				if sec != nil {
 					tc.conn = sec
 				}
@@ -196,7 +206,7 @@ func init() {
 			}
 			sendFn = fo.Send
 		} else {
-			tb, _ := NewTCPBackend("127.0.0.1:0", net.JoinHostPort("127.0.0.1", itoa(fs.port)), established)
+			tb, _ := NewTCPBackend("127.0.0.1:0", net.JoinHostPort(faultIP().String(), itoa(fs.port)), established)
 			if pri != nil {
 				tb.conn = pri
 			}
